@@ -95,7 +95,8 @@ def gen_script(rng, tier):
         else:
             ops.append(['inc', m, list(rng.choice(pool)), rng.choice([1, 1, 1, -1, 0, rng.randrange(-1000, 100000)])])
     ops.append(['agg', list(range(nm)), now + rng.choice(STEPS)])
-    return {'kind': 'direct', 'metrics': metrics, 'cap': cap, 'pcts': _gen_pcts(rng), 'ops': ops}
+    return {'kind': 'direct', 'metrics': metrics, 'cap': cap, 'pcts': _gen_pcts(rng), 'ops': ops,
+            'assign_fields': rng.random() < 0.4}
 
 
 def gen_stream(rng, tier):
@@ -232,9 +233,21 @@ def run_script(script):
     mtype = {m: t for m, t in reversed(metrics)}
     tags, steps = set(), []
 
+    mk_count = [0]
+
     def mk(src):
-        return Source(method=_name('m', src[0]), service=_name('s', src[1]),
-                      endpoint=_name('e', src[2]), client_id=_name('c', src[3]))
+        # every other source is filled in field by field after construction (the fields are public attributes); it is
+        # equal to one built by the constructor from the same four values
+        mk_count[0] += 1
+        vals = dict(method=_name('m', src[0]), service=_name('s', src[1]),
+                    endpoint=_name('e', src[2]), client_id=_name('c', src[3]))
+        if script.get('assign_fields') and mk_count[0] % 2 == 0:
+            tags.add('source-filled-by-assignment')
+            s = Source()
+            for k in ('client_id', 'endpoint', 'service', 'method'):
+                setattr(s, k, vals[k])
+            return s
+        return Source(**vals)
 
     def exact_int(x):
         f = Fraction(x)
